@@ -407,7 +407,8 @@ pub assume_specification<T, U, D: FnOnce() -> U, F: FnOnce(T) -> U>[ Option::<T>
 // ---- Display / Formatter model (C04): the bytes a Formatter has received so far ----------------------
 pub uninterp spec fn fmt_out(f: std::fmt::Formatter) -> Seq<u8>;
 /// bytes of an ASCII string
-pub open spec fn str_bytes(s: &str) -> Seq<u8> { Seq::new(s@.len(), |i: int| s@[i] as u8) }
+pub open spec fn chars_bytes(s: Seq<char>) -> Seq<u8> { Seq::new(s.len(), |i: int| s[i] as u8) }
+pub open spec fn str_bytes(s: &str) -> Seq<u8> { chars_bytes(s@) }
 
 /// ASSUMED std contracts: write_str / write_char append exactly the given text
 pub assume_specification<'a>[ std::fmt::Formatter::<'a>::write_str ](f: &mut std::fmt::Formatter<'a>, s: &str) -> (r: std::fmt::Result)
@@ -433,3 +434,43 @@ pub open spec fn lang_text(o: Option<Seq<u8>>) -> Seq<u8> { match o { Some(s) =>
 pub open spec fn lid_ser(v: LidView) -> Seq<u8> {
     lang_text(v.lang) + opt_dash(v.script) + opt_dash(v.region) + dash_join(v.variants)
 }
+
+/// vstd specifies `x.to_string()` by the uninterpreted relation to_string_from_display_ensures(x, result).
+/// Per type we link it (ASSUMED: to_string is the output of Display::fmt on an empty buffer), by an axiom that
+/// restates the VERIFIED contract of that type's `fmt`, to the serialisation spec function.
+pub open spec fn to_string_is<T: std::fmt::Display + ?Sized>(x: &T, bytes: Seq<u8>) -> bool {
+    forall|r: String| #[trigger] vstd::string::to_string_from_display_ensures::<T>(x, r) ==> r@ == bytes_chars(bytes)
+}
+pub open spec fn bytes_chars(b: Seq<u8>) -> Seq<char> { Seq::new(b.len(), |i: int| b[i] as char) }
+pub proof fn lemma_bytes_chars_inverse(b: Seq<u8>)
+    ensures chars_bytes(bytes_chars(b)) == b,
+{
+    assert forall|i: int| 0 <= i < b.len() implies (b[i] as char) as u8 == b[i] by {}
+    assert(chars_bytes(bytes_chars(b)) =~= b);
+}
+
+/// what `{}` formatting of a value appends (its Display output); uninterpreted, linked per type by axioms that
+/// restate the verified contract of that type's `fmt`
+pub uninterp spec fn display_bytes<T: ?Sized>(s: &T) -> Seq<u8>;
+/// ASSUMED (std): Display for &T delegates to T
+pub broadcast proof fn axiom_display_ref<T>(x: &&T)
+    ensures #[trigger] display_bytes::<&T>(x) == display_bytes::<T>(*x),
+{ admit(); }
+/// ASSUMED (tinystr): a TinyAsciiStr displays as its text
+pub broadcast proof fn axiom_display_tiny<const N: usize>(t: &tinystr::TinyAsciiStr<N>)
+    ensures #[trigger] display_bytes::<tinystr::TinyAsciiStr<N>>(t) == text(*t),
+{ admit(); }
+
+// ASSUMED semantics of format_args!/write! for plain `{}` placeholders (see the `write!` shim at the crate head)
+#[verifier::external_body]
+pub fn vf_write_dash<'a, T: std::fmt::Display>(f: &mut std::fmt::Formatter<'a>, a: &T) -> (r: std::fmt::Result)
+    ensures r is Ok ==> fmt_out(*final(f)) == fmt_out(*old(f)) + dash() + display_bytes(a),
+{ std::write!(f, "-{}", a) }
+#[verifier::external_body]
+pub fn vf_write2<'a, T: std::fmt::Display, U: std::fmt::Display>(f: &mut std::fmt::Formatter<'a>, a: &T, b: &U) -> (r: std::fmt::Result)
+    ensures r is Ok ==> fmt_out(*final(f)) == fmt_out(*old(f)) + display_bytes(a) + display_bytes(b),
+{ std::write!(f, "{}{}", a, b) }
+#[verifier::external_body]
+pub fn vf_write3<'a, T: std::fmt::Display, U: std::fmt::Display, W: std::fmt::Display>(f: &mut std::fmt::Formatter<'a>, a: &T, b: &U, c: &W) -> (r: std::fmt::Result)
+    ensures r is Ok ==> fmt_out(*final(f)) == fmt_out(*old(f)) + display_bytes(a) + display_bytes(b) + display_bytes(c),
+{ std::write!(f, "{}{}{}", a, b, c) }
